@@ -33,8 +33,6 @@ Definition pfacts_step (F : list fact) (asz : Z -> Z) (i : inst) : list fact := 
 Definition ml_fixed (l : memloc) : bool :=
   match ml_offset l, ml_size l with Some _, Some n => 0 <=? n | _, _ => false end.
 
-(* what the instruction reads: for a halting instruction, what is observed *)
-Definition rshape (op : string) : shape := if is_in op HALT_OPS then shape_of op else wshape op.
 
 Definition reads_clear (strict : bool) (F : list fact) (asz : Z -> Z) (i : inst) (x : pitem) : bool :=
   let sh := rshape (i_op i) in
